@@ -34,7 +34,7 @@ def gen_cases(tier, seed):
     for tag, s in seeds.all_seeds():
         for o in optsets(2):
             cases.append({'shape': 'seed:' + tag, 'src': s, 'opts': o})
-    for i in range(120 if tier == 'quick' else 3000):
+    for i in range(120 if tier == 'quick' else 1200):
         s, _ = modgen.generate(seed, 50000 + i, guarded=(i % 2 == 0), size=8 + (i % 3) * 5)
         for o in optsets(1):
             cases.append({'shape': 'modgen', 'src': s, 'opts': o})
